@@ -284,7 +284,7 @@ def run(pid, tier, seed):
     r2 = adapters.analyse("ab.h", CLEAN_H % (g, g))
     if r.status != "OK" or r.has_error() or r2.status != "OK" or r2.has_error():
         raise core.HarnessError("the clean file contents are not clean: %s %s" % (r.diags, r2.diags))
-    shards, n, real_every = (8, 25, 12) if tier == "quick" else (16, 400, 5)
+    shards, n, real_every = (16, 60, 30) if tier == "quick" else (16, 400, 5)
     camp = core.Campaign()
     for name, rc in core.regress_cases(pid):
         for k, what in replay(pid, rc["case"]):
